@@ -165,6 +165,8 @@ func (env *Zlisp) comparePair(a *SexpPair, b Sexp) (int, error) {
 	return env.Compare(a.Tail, bp.Tail)
 }
 
+const maxCompareDepth = 10000
+
 func (env *Zlisp) compareArray(a *SexpArray, b Sexp) (int, error) {
 	var ba *SexpArray
 	switch t := b.(type) {
@@ -173,6 +175,17 @@ func (env *Zlisp) compareArray(a *SexpArray, b Sexp) (int, error) {
 	default:
 		errmsg := fmt.Sprintf("err 97: cannot compare %T to %T", a, b)
 		return 0, errors.New(errmsg)
+	}
+	if a == ba {
+		// the very same array; also ends the walk of an array that contains itself
+		return 0, nil
+	}
+	// two different arrays that contain themselves would be walked
+	// forever, until the Go stack overflows and takes the process down.
+	env.compareDepth++
+	defer func() { env.compareDepth-- }()
+	if env.compareDepth > maxCompareDepth {
+		return 0, fmt.Errorf("cannot compare arrays nested more than %d deep (does one contain itself?)", maxCompareDepth)
 	}
 	var length int
 	if len(a.Val) < len(ba.Val) {
